@@ -368,8 +368,10 @@ class Ctx:
         ev = {"property_id": self.pid, "tier": self.tier, "seed": self.seed, "level": self.level,
               "coverage": cov, "assumptions": self.assumptions, "wall_s": round(wall, 2),
               "violations": sum(v["instances"] for v in self.violations)}
-        (VERIF / "evidence").mkdir(exist_ok=True)
-        (VERIF / "evidence" / (self.pid + ".json")).write_text(json.dumps(ev, indent=1, default=str) + "\n")
+        # evidence describes runs against /repo itself; runs against a scratch copy (VERIF_REPO) go elsewhere
+        evdir = VERIF / "evidence" if REPO.resolve() == Path("/repo") else WORK / "scratch_evidence"
+        evdir.mkdir(parents=True, exist_ok=True)
+        (evdir / (self.pid + ".json")).write_text(json.dumps(ev, indent=1, default=str) + "\n")
         for k in self.known:
             print("KNOWN-FINDING: property=%s %s [%s; %d instance(s) this run]" %
                   (self.pid, k["what"], k["key"], k["instances"]))
